@@ -312,6 +312,9 @@ func (c *TermCtx) BinBV(op Op, a, b *Term) *Term {
 		if b.IsConst() && b.val == 1 {
 			return a
 		}
+		if q := c.exactQuot(a, b, w); q != nil {
+			return q
+		}
 		if b.IsConst() && b.val != 0 && bits.OnesCount64(b.val) == 1 {
 			return c.BinBV(OpLShr, a, c.Const(w, uint64(bits.TrailingZeros64(b.val))))
 		}
@@ -320,6 +323,11 @@ func (c *TermCtx) BinBV(op Op, a, b *Term) *Term {
 			return c.BinBV(OpAnd, a, c.Const(w, b.val-1))
 		}
 	case OpSRem, OpSDiv:
+		if op == OpSDiv && b.IsConst() && sext64(b.val, w) > 0 && c.ub(a, 40) < uint64(1)<<uint(w-1) {
+			if q := c.exactQuot(a, b, w); q != nil {
+				return q
+			}
+		}
 		// signed division of a provably non-negative value by a positive constant is unsigned division
 		if b.IsConst() && sext64(b.val, w) > 0 && c.ub(a, 40) < uint64(1)<<uint(w-1) {
 			if op == OpSRem {
@@ -416,6 +424,29 @@ func (c *TermCtx) BinBV(op Op, a, b *Term) *Term {
 		}
 	}
 	return c.mk(op, a.sort, []*Term{a, b}, 0, "")
+}
+
+// exactQuot: (Σ xᵢ·k + c·k) / k = Σ xᵢ + c when the sum provably does not wrap (all summands multiples of k).
+func (c *TermCtx) exactQuot(a, b *Term, w int) *Term {
+	if !b.IsConst() || b.val < 2 || a.IsConst() {
+		return nil
+	}
+	k := b.val
+	if c.ub(a, 40) == mask(w) {
+		return nil // possible wrap-around
+	}
+	leaves, cst := c.sumLeaves(a)
+	if cst%k != 0 || len(leaves) == 0 {
+		return nil
+	}
+	var acc *Term = c.Const(w, cst/k)
+	for _, l := range leaves {
+		if l.op != OpMul || !l.args[1].IsConst() || l.args[1].val%k != 0 {
+			return nil
+		}
+		acc = c.BinBV(OpAdd, acc, c.BinBV(OpMul, l.args[0], c.Const(w, l.args[1].val/k)))
+	}
+	return acc
 }
 
 // sumLeaves flattens a tree of additions into its non-constant summands (sorted by id) and a constant.
